@@ -295,15 +295,12 @@ mod vh_posix {
     // C17: the PATH lookup in the child reuses the buffer sized before fork
     use std::alloc::{GlobalAlloc, Layout, System};
     pub unsafe fn obs_alloc(layout: Layout) -> *mut u8 {
-        mp::ALLOCS += 1;
         System.alloc(layout)
     }
     pub unsafe fn obs_alloc_zeroed(layout: Layout) -> *mut u8 {
-        mp::ALLOCS += 1;
         System.alloc_zeroed(layout)
     }
     pub unsafe fn obs_realloc(ptr: *mut u8, layout: Layout, new_size: usize) -> *mut u8 {
-        mp::ALLOCS += 1;
         System.realloc(ptr, layout, new_size)
     }
 
@@ -311,9 +308,6 @@ mod vh_posix {
     /// candidate failing or one starting: no allocation from the moment the exec
     /// closure starts running (= after fork) until exec / return.
     #[kani::proof]
-    #[kani::stub(std::alloc::alloc, obs_alloc)]
-    #[kani::stub(std::alloc::alloc_zeroed, obs_alloc_zeroed)]
-    #[kani::stub(std::alloc::realloc, obs_realloc)]
     fn h_alloc_path() {
         mk::link_model();
         unsafe {
@@ -362,9 +356,10 @@ mod vh_posix {
         let prep = PrepExec::new(OsString::from("cc"), argvec, None, Some(OsString::from_vec(p[..n].to_vec())));
         // fork happens here
         mp::IN_CHILD = true;
-        mp::ALLOC_AT_FORK = mp::ALLOCS;
+        mp::ALLOC_AT_FORK = mp::VK_ALLOCS;
+        vcheck!(C17, mp::VK_ALLOCS > 0, "C17/observer-alive-here: preparing the exec (CVec, prealloc buffer) did not move the allocation counter: the observer is dead in this harness");
         let res = prep.exec();
-        vcheck!(C17, mp::ALLOCS == mp::ALLOC_AT_FORK, "C17/no-alloc-in-lookup: the PATH lookup allocated in the child (the candidate buffer was not sized before fork)");
+        vcheck!(C17, mp::VK_ALLOCS == mp::ALLOC_AT_FORK, "C17/no-alloc-in-lookup: the PATH lookup allocated in the child (the candidate buffer was not sized before fork)");
         kani::cover!(mp::EXEC_ATTEMPTS == 2, "COVER/two-candidates-assembled");
         std::mem::forget(res);
     }
@@ -415,6 +410,49 @@ mod vh_posix {
                     std::mem::forget(e);
                 }
             }
+        }
+    }
+
+    #[kani::proof]
+    fn prof_cap() {
+        mk::link_model();
+        unsafe {
+            mk::reset();
+            mk::init_std_fds();
+            let args = [OsString::from("x")];
+            let argvec = CVec::new(&args).unwrap();
+            let prep = PrepExec::new(OsString::from("cc"), argvec, None, Some(OsString::from("dddd")));
+            let cap = prep.prealloc_exe.capacity();
+            kani::cover!(cap == 4, "COVER/cap4");
+            kani::cover!(cap == 8, "COVER/cap8");
+            kani::cover!(cap > 8, "COVER/capbig");
+            mp::IN_CHILD = true;
+            mp::EXEC_VERDICT[0] = libc::ENOENT;
+            let a0 = mp::VK_ALLOCS;
+            let res = prep.exec();
+            kani::cover!(mp::VK_ALLOCS != a0, "COVER/allocated-in-child");
+            kani::cover!(mp::VK_ALLOCS == a0, "COVER/not-allocated-in-child");
+            std::mem::forget(res);
+        }
+    }
+
+    #[kani::proof]
+    fn prof_w2() {
+        unsafe {
+            mp::VK_ALLOCS = 0;
+            let mut v: Vec<u8> = Vec::with_capacity(4);
+            let a0 = mp::VK_ALLOCS;
+            v.extend_from_slice(b"dddd");
+            let a1 = mp::VK_ALLOCS;
+            v.extend_from_slice(b"/");
+            let a2 = mp::VK_ALLOCS;
+            v.push(0);
+            kani::cover!(a0 == 1, "COVER/w-a0-1");
+            kani::cover!(a1 == a0, "COVER/w-a1-same");
+            kani::cover!(a2 > a1, "COVER/w-a2-grew");
+            kani::cover!(a2 == a1, "COVER/w-a2-same");
+            kani::cover!(v.capacity() >= 8, "COVER/w-cap8");
+            std::mem::forget(v);
         }
     }
 }
